@@ -226,6 +226,63 @@ fn reentrant_sources_and_sinks(rep: &Report) {
     }
 }
 
+/// Sinks that implement `write_vectored` themselves and accept a bounded number of bytes per call ACROSS the slices offered
+/// (as a socket or pipe does): 1, 7, 16, 17, 40, 100 or 70000 bytes per call. Whatever way the encryptor hands its records
+/// over, the bytes that arrive are the file, and it decrypts.
+fn vectored_sinks(rep: &Report) {
+    use std::io::{IoSlice, Write};
+    let seed = rep.seed;
+    struct VSink {
+        out: Vec<u8>,
+        per_call: usize,
+    }
+    impl Write for VSink {
+        fn write(&mut self, b: &[u8]) -> std::io::Result<usize> {
+            let n = b.len().min(self.per_call);
+            self.out.extend_from_slice(&b[..n]);
+            Ok(n)
+        }
+        fn write_vectored(&mut self, bufs: &[IoSlice<'_>]) -> std::io::Result<usize> {
+            let mut left = self.per_call;
+            let mut n = 0;
+            for b in bufs {
+                let k = b.len().min(left);
+                self.out.extend_from_slice(&b[..k]);
+                n += k;
+                left -= k;
+                if left == 0 {
+                    break;
+                }
+            }
+            Ok(n)
+        }
+        fn flush(&mut self) -> std::io::Result<()> {
+            Ok(())
+        }
+    }
+    let key = derive32(seed, "c02-vec-key");
+    let mut jobs = vec![];
+    for (cs, l) in [(16u32, 40usize), (65536, 65536 + 300)] {
+        for per in [1usize, 7, 16, 17, 40, 100, 70_000] {
+            jobs.push((cs, l, per));
+        }
+    }
+    jobs.par_iter().for_each(|&(cs, l, per)| {
+        rep.eval(1);
+        rep.nontrivial(format!("vectored-sink-{}-{}-{}", cs, l, per).as_bytes());
+        let p = plaintext(seed ^ 0x2d, l);
+        let enc = Subject::TinyEnc { key: hx(&key), aad: hx(&r::PASS_MAGIC), cs };
+        let mut sink = VSink { out: vec![], per_call: per };
+        let mut src: &[u8] = &p;
+        let res = run_rw(&enc, &mut src, &mut sink);
+        let good = res.is_ok() && matches!(r::read_chunks(&key, &r::PASS_MAGIC, &sink.out, cs), Ok(k) if k.plaintext == p);
+        if !good {
+            rep.violation("vectored-sink/round-trip", json!({"kind":"vectored","cs":cs,"len":l,"per_call":per}), format!("encryption (chunk size {}, {} bytes) into a sink that takes at most {} bytes per write / write_vectored call: {}; the {} bytes that arrived are not the file (REF cannot read them back)", cs, l, per, res.brief(), sink.out.len()));
+        }
+    });
+    rep.extra("vectored_sink_cases", json!(jobs.len()));
+}
+
 pub fn run(rep: &'static Report) {
     let seed = rep.seed;
     rep.set_rule("E-ENV in tiny scope with the password-mode AAD (magic): every read partition, bounded write partitions, both loops, plus mismatched key/AAD pairs; E-GRID through pass_encrypt/pass_decrypt: all ordered password pairs over the 12-word alphabet x salts, and lengths x bounded short-I/O schedules. distinct non-trivial = distinct ciphertext streams round-tripped + distinct (password, other password, salt) triples");
@@ -390,6 +447,7 @@ pub fn run(rep: &'static Report) {
     cli_pairs(rep);
     crate::chan::round_trips(rep, "C02");
     reentrant_sources_and_sinks(rep);
+    vectored_sinks(rep);
     match big.join() {
         Ok(Ok(())) => {}
         Ok(Err(e)) => rep.violation("big/four-gib-stream", json!({"kind":"cli-rt","big":true}), e),
@@ -620,6 +678,10 @@ fn cli_pairs(rep: &Report) {
 pub fn replay(rep: &'static Report, case: &Value) {
     if case["kind"] == "chan" {
         crate::chan::round_trips(rep, "C02");
+        return;
+    }
+    if case["kind"] == "vectored" {
+        vectored_sinks(rep);
         return;
     }
     if case["kind"] == "reentrant" {
